@@ -152,10 +152,10 @@ package dials
 
 //@ macro cfgType(t Iface) RType = elem(typeOfDyn(dyn(t)))
 //@ macro isCfgPtr(t Iface) bool = t != nil && pay(t) != nil && kind(typeOfDyn(dyn(t))) == Ptr && kind(cfgType(t)) == Struct
-// a source value fits the config type T when it is (a non-nil pointer to) a struct that has one field per
-// retained field of T, in order, with the same names (what ptrify.Pointerify builds)
-//@ macro structFits(P RType, T RType) bool = kind(P) == Struct && numField(P) == retained(T, numField(T))
-//@      && (forall k int :: 0 <= k && k < numField(T) && keeps(T, k) ==> fName(P, retained(T, k)) == fName(T, k))
+// a source value fits the config type T when it is (a non-nil pointer to) the pointerified T: one field per
+// retained field of T, in order, with the same name and the pointerified field type, all the way down
+// (ptrify.deepShape; what ptrify.Pointerify builds when the defaults hold no interface values)
+//@ macro structFits(P RType, T RType) bool = deepShape(T, P, tuIface())
 //@ macro layerFits(v Val, T RType) bool = valid(v) && ((kind(vtype(v)) == Ptr && !visnil(v) && structFits(elem(vtype(v)), T))
 //@      || (kind(vtype(v)) != Ptr && structFits(vtype(v), T)))
 
@@ -164,7 +164,7 @@ package dials
 //@   flag record realDeepCopy
 //@   ensures in != nil ==> valid(out) && vtype(out) == typeOfDyn(dyn(in)) && canInterface(out)
 //@   ensures in != nil && kind(typeOfDyn(dyn(in))) == Ptr && pay(in) != nil ==> !visnil(out) && vptr(out) != nil && fresh(vptr(out)) && vptr(out) != pay(in)
-//@        && vaddr(vElem(out)) == vptr(out)
+//@        && vaddr(vElem(out)) == vptr(out) && fresh(vroot(out)) && allocated(vroot(out)) && allocated(vptr(out))
 
 //@ func dials.newOverlayer() (o)
 //@   props C01 C02
@@ -179,7 +179,7 @@ package dials
 //@   flag unproved
 //@   flag record deepCopyValue
 //@   requires d != nil && valid(v)
-//@   ensures valid(out) && vtype(out) == vtype(v) && canAddr(out) && canSet(out)
+//@   ensures valid(out) && vtype(out) == vtype(v) && canAddr(out) && canSet(out) && fresh(vroot(out))
 
 //@ func dials.compose(t, sources) (r, err)
 //@   props C01 C02 C05
@@ -188,24 +188,30 @@ package dials
 //@   flag record_heap dials.sourceValue.value
 //@   requires C01_defaults_are_a_struct_pointer: isCfgPtr(t)
 //@   requires C01_layers_fit_the_config_type: forall k int :: 0 <= k && k < len(sources) ==> layerFits(sources[k].value, cfgType(t))
-//@   modifies rec_realDeepCopy, rec_deepCopyValue, rec_overlayStruct
+//@   requires wf_arguments_exist_before_the_call: forall k int :: {sources[k].value} 0 <= k && k < len(sources) ==> allocT(vroot(sources[k].value)) < clock
+//@   modifies rec_realDeepCopy, rec_deepCopyValue, rec_overlayStruct, rh, youngT
+//@   at call realDeepCopy:
+//@     ghostset youngT = clock
 //@   loop 0:
 //@     invariant C01_one_overlay_per_earlier_layer: rec_overlayStruct_cnt == old(rec_overlayStruct_cnt) + rangeidx
 //@          && rec_deepCopyValue_cnt == old(rec_deepCopyValue_cnt) + rangeidx
 //@     invariant C01_C02_layers_in_argument_order_and_copied: forall k int :: 0 <= k && k < rangeidx && k < len(sources) ==>
-//@          rec_overlayStruct_arg1[old(rec_overlayStruct_cnt) + k] == vElem(rec_realDeepCopy_res0[old(rec_realDeepCopy_cnt)])
+//@          rec_overlayStruct_arg1[old(rec_overlayStruct_cnt) + k] == vElemH(old(rh), rec_realDeepCopy_res0[old(rec_realDeepCopy_cnt)])
 //@          && rec_overlayStruct_arg2[old(rec_overlayStruct_cnt) + k] == rec_deepCopyValue_res0[old(rec_deepCopyValue_cnt) + k]
-//@          && rec_deepCopyValue_arg1[old(rec_deepCopyValue_cnt) + k] == ite(kind(vtype(sources[k].value)) == Ptr, vElem(sources[k].value), sources[k].value)
+//@          && rec_deepCopyValue_arg1[old(rec_deepCopyValue_cnt) + k] == ite(kind(vtype(sources[k].value)) == Ptr, vElemH(old(rh), sources[k].value), sources[k].value)
 //@     invariant rec_realDeepCopy_cnt == old(rec_realDeepCopy_cnt) + 1 && rec_realDeepCopy_arg0[old(rec_realDeepCopy_cnt)] == t
+//@     invariant C02_the_layers_and_the_defaults_are_never_written: olderObjectsUntouched(old(rh)) && youngT >= old(clock) && clock >= youngT
 //@   ensures C05_compose_err_nil_result: err != nil ==> r == nil
 //@   ensures C05_compose_type: err == nil ==> dyn(r) == dyn(t) && pay(r) != nil && fresh(pay(r))
 //@   ensures C02_result_is_the_fresh_copy_of_the_defaults: err == nil ==> rec_realDeepCopy_cnt == old(rec_realDeepCopy_cnt) + 1
-//@        && rec_realDeepCopy_arg0[old(rec_realDeepCopy_cnt)] == t && pay(r) == vptr(rec_realDeepCopy_res0[old(rec_realDeepCopy_cnt)]) && pay(r) != pay(t)
+//@        && rec_realDeepCopy_arg0[old(rec_realDeepCopy_cnt)] == t && pay(r) == vptrH(old(rh), rec_realDeepCopy_res0[old(rec_realDeepCopy_cnt)]) && pay(r) != pay(t)
+//@   ensures C02_the_layers_and_the_defaults_are_never_written: forall w Val :: {visnilH(rh, w)} {vptrH(rh, w)} {vElemH(rh, w)} allocT(vroot(w)) < old(clock) ==>
+//@        visnilH(rh, w) == visnilH(old(rh), w) && vptrH(rh, w) == vptrH(old(rh), w) && vElemH(rh, w) == vElemH(old(rh), w)
 //@   ensures C01_every_layer_overlaid_once_in_order: err == nil ==> rec_overlayStruct_cnt == old(rec_overlayStruct_cnt) + len(sources)
 //@        && (forall k int :: 0 <= k && k < len(sources) ==>
-//@             rec_overlayStruct_arg1[old(rec_overlayStruct_cnt) + k] == vElem(rec_realDeepCopy_res0[old(rec_realDeepCopy_cnt)])
+//@             rec_overlayStruct_arg1[old(rec_overlayStruct_cnt) + k] == vElemH(old(rh), rec_realDeepCopy_res0[old(rec_realDeepCopy_cnt)])
 //@             && rec_overlayStruct_arg2[old(rec_overlayStruct_cnt) + k] == rec_deepCopyValue_res0[old(rec_deepCopyValue_cnt) + k]
-//@             && rec_deepCopyValue_arg1[old(rec_deepCopyValue_cnt) + k] == ite(kind(vtype(sources[k].value)) == Ptr, vElem(sources[k].value), sources[k].value))
+//@             && rec_deepCopyValue_arg1[old(rec_deepCopyValue_cnt) + k] == ite(kind(vtype(sources[k].value)) == Ptr, vElemH(old(rh), sources[k].value), sources[k].value))
 //@   ensures C01_error_stops_at_the_failing_layer: err != nil ==> rec_overlayStruct_cnt <= old(rec_overlayStruct_cnt) + len(sources)
 
 // ---------------------------------------------------------------------------------------------
@@ -233,7 +239,7 @@ package dials
 //@   requires C06_announced: cbAnnounced <= stored(d).serial
 //@   modifies atomicval, hist, storetime, evclock, sent, senttime, sentlog_Iface, sentlog_Ref, cbAnnounced, recvd, recvlog_struct{},
 //@            vlogLen, vlogCfg, vlogErr, vlogTime, dials.sourceValue.value, rec_compose, rec_submitEvent,
-//@            rec_realDeepCopy, rec_deepCopyValue, rec_overlayStruct
+//@            rec_realDeepCopy, rec_deepCopyValue, rec_overlayStruct, rh, youngT
 //@   loop 0:
 //@     invariant C05_no_earlier_match: forall k int :: 0 <= k && k < i ==> sourceValues[k].source != watchTab.source
 //@   ensures C08_only_ctx_received: forall c Ref :: {recvd[c]} c != doneChan(ctx) ==> recvd[c] == old(recvd)[c]
@@ -578,7 +584,7 @@ package dials
 //@   requires api_precondition_config_is_a_struct: kind(elem(typeOfDyn(tid("*T")))) == Struct && elem(typeOfDyn(tid("*T"))) != nil
 //@   requires api_precondition_defaults_nonnil: t != nil
 //@   modifies atomicval, hist, storetime, evclock, chcap, sent, recvd, closed, vlogLen, vlogCfg, vlogErr, vlogTime,
-//@            rec_compose, rec_sourceValue, rec_watch, rec_realDeepCopy, rec_deepCopyValue, rec_overlayStruct,
+//@            rec_compose, rec_sourceValue, rec_watch, rec_realDeepCopy, rec_deepCopyValue, rec_overlayStruct, rh, youngT,
 //@            ?sourcewrap.Blank.t, ?sourcewrap.Blank.wa, ?sourcewrap.Blank.watchCtx
 //@   loop 0:
 //@     invariant C05_C18_watchers_so_far_are_watched: forall k int :: 0 <= k && k < rangeidx && k < len(sources) && isWatcherSrc(sources[k]) ==>
@@ -616,6 +622,14 @@ package dials
 // parallel; j must always be the number of retained base fields before i, for every struct type.
 // ---------------------------------------------------------------------------------------------
 
+// Everything compose builds (the copy of the defaults, the copies of the layers, what the overlay allocates)
+// is younger than youngT, the allocation clock when compose started copying; the caller's defaults and the
+// sources' values are older.  youngHeap: pointers stored in young objects point to young objects.
+//@ ghost youngT int
+//@ macro youngHeap() bool = forall w Val :: {vptrH(rh, w)} allocT(vroot(w)) >= youngT && !visnilH(rh, w) ==> allocT(vptrH(rh, w)) >= youngT
+//@ macro olderObjectsUntouched(h0 int) bool = forall w Val :: {visnilH(rh, w)} {vptrH(rh, w)} {vElemH(rh, w)} allocT(vroot(w)) < youngT ==>
+//@      visnilH(rh, w) == visnilH(h0, w) && vptrH(rh, w) == vptrH(h0, w) && vElemH(rh, w) == vElemH(h0, w)
+
 // overlayField(base, overlay): base is a settable field of the config struct, overlay the field at the same
 // (retained) position of a source's pointerified value.
 //@ macro overlayUnset(overlay Val) bool = (kind(vtype(overlay)) == Slice || kind(vtype(overlay)) == Ptr || kind(vtype(overlay)) == Interface || kind(vtype(overlay)) == Map) && visnil(overlay)
@@ -629,10 +643,13 @@ package dials
 //@   requires C01_skipped_kinds_never_arrive: kind(vtype(base)) != Chan && kind(vtype(base)) != Func
 //@   requires wf_package_initialised_errors: global("errCanSetField") != nil
 //@   requires wf_layer_and_config_are_disjoint_objects: vroot(overlay) != vroot(base)
+//@   requires C02_only_the_copies_are_written: allocT(vroot(base)) >= youngT && allocT(vroot(overlay)) >= youngT && clock >= youngT
+//@   requires wf_young_objects_point_to_young_objects: youngHeap()
 //@   decreases srank(vtype(base)), 1
 //@   modifies rh, rec_overlayStruct
 //@   at call base.Set(:
 //@     assert C01_struct_pointers_are_merged_not_replaced: kind(vtype(base)) == Ptr && kind(elem(vtype(base))) == Struct && !isTUS(elem(vtype(base)), tuIface()) ==> visnil(base)
+//@   ensures C02_objects_older_than_the_copies_are_never_written: olderObjectsUntouched(old(rh))
 //@   ensures C01_unset_overlay_changes_nothing: old(overlayUnset(overlay)) ==> err == nil && rh == old(rh)
 //@   ensures C01_set_leaf_is_replaced_as_a_whole: err == nil && !old(overlayUnset(overlay)) && isLeafKind(kind(vtype(base))) ==>
 //@        rh == old(rh) + 1 && vval(base) == old(vval(ite(kind(vtype(overlay)) == Ptr, vElem(overlay), overlay)))
@@ -643,6 +660,7 @@ package dials
 //@   flag unproved
 //@   requires valid(base) && valid(overlay) && kind(vtype(base)) == Interface
 //@   modifies rh, rec_overlayStruct
+//@   ensures olderObjectsUntouched(old(rh))
 
 //@ func dials.(*overlayer).overlayStruct(o, base, overlay) (err)
 //@   props C01
@@ -654,11 +672,15 @@ package dials
 //@   requires C01_overlay_is_pointerified_base: deepShape(vtype(base), vtype(overlay), tuIface())
 //@   requires wf_package_initialised_errors: global("errCanSetField") != nil
 //@   requires wf_layer_and_config_are_disjoint_objects: vroot(overlay) != vroot(base)
+//@   requires C02_only_the_copies_are_written: allocT(vroot(base)) >= youngT && allocT(vroot(overlay)) >= youngT && clock >= youngT
+//@   requires wf_young_objects_point_to_young_objects: youngHeap()
 //@   decreases srank(vtype(base)), 0
 //@   modifies rh, rec_overlayStruct
+//@   ensures C02_objects_older_than_the_copies_are_never_written: olderObjectsUntouched(old(rh))
 //@   loop 0:
 //@     invariant 0 <= i && i <= numField(vtype(base))
 //@     invariant C01_no_drift: j == retained(vtype(base), i)
+//@     invariant C02_objects_older_than_the_copies_are_never_written: olderObjectsUntouched(old(rh))
 //@   at call o.overlayField:
 //@     assert C01_field_pairing: keeps(vtype(base), i) && j == retained(vtype(base), i)
 //@          && fName(vtype(overlay), j) == fName(vtype(base), i)
